@@ -771,6 +771,10 @@ pub fn special_terms() -> Vec<T> {
         tsum(100, node2("mul", tvar(100), tvar(0))),
         // let x = (let z = y in z + 1) in x * x: a let in the argument of a let (nested substitution brackets)
         tlet(100, node2("mul", tvar(100), tvar(100)), tlet(101, node2("add", tvar(101), tnum("1")), tvar(0))),
+        // (x - y) - (y - x): one non-symmetric two-slot class mentioned twice with the slots exchanged; a rule with a
+        // repeated variable ((sub ?a ?a) => 0, also in its multi-pattern form) must NOT fire on it
+        node2("sub", node2("sub", tvar(0), tvar(1)), node2("sub", tvar(1), tvar(0))),
+        tlet(100, node2("sub", node2("sub", tvar(100), tvar(0)), node2("sub", tvar(0), tvar(100))), tvar(1)),
     ]
 }
 
